@@ -69,7 +69,54 @@ def _consulted(a) -> dict:
                               'up as a call target by the resolver / raise summaries; package-wide scans (who-may rules) count for none of these'}
 
 
+def explain(path: str) -> int:
+    """./vcheck explain <violation file>: print the recorded violation and re-run its property; exit 1 while the same (rule, construct, key) is
+    still reported on the current tree, 0 when it is gone."""
+    import io
+    import json
+    from contextlib import redirect_stdout
+    try:
+        v = json.loads(open(path, encoding='utf-8').read())
+    except (OSError, ValueError) as e:
+        print(f'ANALYSIS-ERROR cannot read {path}: {e}')
+        return 2
+    print(json.dumps({k: v.get(k) for k in ('property', 'rule', 'construct', 'key', 'loc', 'message', 'path')}, indent=1))
+    print('rule:', v.get('rule_text', '')[:1200])
+    buf = io.StringIO()
+    import pathlib
+    import shutil
+    import tempfile
+
+    from . import report
+    scratch = tempfile.mkdtemp(prefix='verif-explain.')  # the evidence of the registered checks is not touched by an explanation
+    report.EVIDENCE_DIR = pathlib.Path(scratch)
+    with redirect_stdout(buf):
+        run_property(str(v.get('property', '')).upper(), 'quick')
+    still = [ln for ln in buf.getvalue().splitlines() if f"[{v.get('rule')}]" in ln and str(v.get('construct')) in ln]
+    vdir = os.path.join(scratch, 'violations')
+    same = False
+    if os.path.isdir(vdir):
+        for fn in os.listdir(vdir):
+            try:
+                w = json.loads(open(os.path.join(vdir, fn), encoding='utf-8').read())
+            except (OSError, ValueError):
+                continue
+            if all(w.get(k) == v.get(k) for k in ('property', 'rule', 'construct', 'key')):
+                same = True
+    shutil.rmtree(scratch, ignore_errors=True)
+    print('STILL REPORTED on the current tree' if (same or still) else 'no longer reported on the current tree')
+    for ln in still[:5]:
+        print(ln)
+    return 1 if (same or still) else 0
+
+
 def main(argv=None) -> int:
+    argv = list(sys.argv[1:] if argv is None else argv)
+    if argv and argv[0] == 'explain':
+        if len(argv) != 2:
+            print('usage: ./vcheck explain <violation.json>')
+            return 2
+        return explain(argv[1])
     ap = argparse.ArgumentParser()
     ap.add_argument('prop')
     ap.add_argument('--tier', default=os.environ.get('VERIF_TIER', 'quick'), choices=['quick', 'thorough'])
